@@ -13,7 +13,7 @@ from checks import lexcheck
 from vlib import core, lexrender, progen
 from vlib.core import Report
 
-LITERALS = ["x", "y1", "_", "self", "class", "xor", "checkerlang_x", "12", "0", "0x1f", "0x", "0xg", "0b101", "0b", "0b2", "1_0", "1__0", "2.5", "1e3", "1e", "1.e", ".5",
+LITERALS = ["//a{99999999999999999999}//", "//(?P<n>a)(?P<n>b)//", "//a**//", "x", "y1", "_", "self", "class", "xor", "checkerlang_x", "12", "0", "0x1f", "0x", "0xg", "0b101", "0b", "0b2", "1_0", "1__0", "2.5", "1e3", "1e", "1.e", ".5",
             "'s'", "\"d\"", "'a\\nb'", "'\\x41'", "'\\xZZ'", "'\\x4'", "'\\q'", "'unterminated", "//a+//", "//[//", "//(//", "//unterminated", "TRUE", "FALSE", "NULL",
             "(", ")", "[", "]", ",", ";", "<<", ">>", "<<<", ">>>", "<*", "*>", "=>", "...", ":", ".", "!", "&", "|", "@", "$", "?", "\\", "`", "{", "}", "~", "^"]
 NOISE = list(" \t\n\r()[]<>*=+-/%!.,;:#'\"\\_xX0123456789abefnNdioTR") + ["//", "<<<", ">>>", "0x", "0b", "\\x", "def ", "fn", " is ", " in ", "do ", " end", "é", " ", "\x00"]
@@ -122,6 +122,12 @@ def main(tier, seed, replay=None):
         add(spaced([rnd.choice(alpha) for _ in range(rnd.randint(3, 12))]), "random-tokens")
     for _ in range(20000 if not big else 200000):
         add("".join(rnd.choice(NOISE) for _ in range(rnd.randint(1, 30))), "noise")
+    classes["long"] = 0
+    for n in (100, 4300, 4301, 5000, 20000):      # literals beyond the host's conversion limits
+        for t in ("1" * n, "0x" + "f" * n, "0b" + "1" * n, "1." + "1" * n, "1" * n + ".5", "'" + "a" * n + "'", "x" * n, "1_" * n + "1",
+                  "//a{" + "9" * (n // 100) + "}//", "//" + "(" * (n // 10) + ")" * (n // 10) + "//", "#" * n, " " * n + "1", "- " * (n // 400) + "1"):
+            texts.add(t)
+            classes["long"] += 1
     texts = sorted(texts)
     rnd.shuffle(texts)
     chunks = [texts[i:i + 400] for i in range(0, len(texts), 400)]
